@@ -225,3 +225,189 @@ Proof. unfold spec_taproot_msg, taproot_encode. intros S Hidx.
   all: apply Ev_ret_eq; rewrite ?outpoint_flag_eq; destruct leaf as [[h pos]|], annex as [a|]; rewrite <- ?app_assoc, ?app_nil_l, ?app_nil_r; reflexivity.
 Qed.
 End TAPROOT.
+
+(* =========================================== irrelevance of uncommitted fields =========================================== *)
+Section IRRELEVANT.
+Variable pt_ok : bytes -> bool.
+Variable H : bytes -> bytes.
+Variable flags : bool.
+
+Lemma F2_map {A B} (R : A -> A -> Prop) (f : A -> B) : (forall a b, R a b -> f a = f b) -> forall l l', Forall2 R l l' -> map f l = map f l'.
+Proof. intros E l l' F. induction F; cbn; [reflexivity|]. now rewrite (E _ _ H0), IHF. Qed.
+Lemma F2_mapi {A B} (R : A -> A -> Prop) (f : nat -> A -> B) : (forall n a b, R a b -> f n a = f n b) ->
+  forall l l', Forall2 R l l' -> forall n, mapi_from n f l = mapi_from n f l'.
+Proof. intros E l l' F. induction F; intros n; cbn; [reflexivity|]. now rewrite (E _ _ _ H0), IHF. Qed.
+Lemma F2_firstn {A} (R : A -> A -> Prop) l l' : Forall2 R l l' -> forall n, Forall2 R (firstn n l) (firstn n l').
+Proof. intros F. induction F; intros [|n]; cbn; constructor; auto. Qed.
+Lemma F2_nth {A} (R : A -> A -> Prop) l l' : Forall2 R l l' -> forall n,
+  match nth_error l n, nth_error l' n with Some a, Some b => R a b | None, None => True | _, _ => False end.
+Proof. intros F. induction F; intros [|n]; cbn; auto. apply IHF. Qed.
+Lemma Forall2_length {A} (R : A -> A -> Prop) l l' : Forall2 R l l' -> length l = length l'.
+Proof. induction 1; cbn; auto. Qed.
+Lemma F2_refl {A} (R : A -> A -> Prop) : (forall a, R a a) -> forall l, Forall2 R l l.
+Proof. intros E. induction l; constructor; auto. Qed.
+
+Lemma in_sig_core a b : in_sig_eq a b -> in_core_eq a b.
+Proof. unfold in_sig_eq, in_core_eq. tauto. Qed.
+Lemma tx_sig_core t t' : tx_sig_eq t t' -> tx_core_eq t t'.
+Proof. intros (V & L & I & O). repeat split; auto.
+  - clear -I. induction I; constructor; auto using in_sig_core.
+  - rewrite O. apply F2_refl. unfold out_core_eq. auto. Qed.
+
+Lemma legacy_input_core ht idx sc n a b : in_core_eq a b -> legacy_input pt_ok flags ht idx sc n a = legacy_input pt_ok flags ht idx sc n b.
+Proof. destruct a, b. unfold in_core_eq. cbn. intros (-> & -> & -> & ->). reflexivity. Qed.
+Lemma ser_txout_core a b : out_core_eq a b -> ser_txout pt_ok a = ser_txout pt_ok b.
+Proof. destruct a, b. unfold out_core_eq. cbn. intros (-> & -> & -> & ->). reflexivity. Qed.
+Lemma legacy_output_core ht idx n a b : out_core_eq a b -> legacy_output pt_ok ht idx n a = legacy_output pt_ok ht idx n b.
+Proof. intros E. unfold legacy_output. now rewrite (ser_txout_core _ _ E). Qed.
+
+(* script_sig and every witness field (script witness, pegin witness, issuance range proofs, output witnesses) are outside the
+   legacy and segwit v0 messages *)
+Theorem legacy_core t t' idx sc ht : tx_core_eq t t' -> spec_legacy_msg pt_ok flags t idx sc ht = spec_legacy_msg pt_ok flags t' idx sc ht.
+Proof. intros (V & L & I & O). unfold spec_legacy_msg, legacy_single_bug, mapi.
+  pose proof (F2_nth _ _ _ I idx) as Nth. rewrite <- (Forall2_length _ _ _ I), <- (Forall2_length _ _ _ O), V, L.
+  destruct (nth_error (tx_in t) idx) as [a|], (nth_error (tx_in t') idx) as [b|]; try contradiction; [|reflexivity].
+  rewrite (legacy_input_core ht idx sc idx _ _ Nth).
+  rewrite (F2_mapi _ _ (legacy_input_core ht idx sc) _ _ I).
+  rewrite (F2_map _ _ ser_txout_core _ _ O).
+  rewrite (F2_mapi _ _ (legacy_output_core ht idx) _ _ (F2_firstn _ _ _ O (idx + 1))). reflexivity. Qed.
+
+Lemma core_prev a b : in_core_eq a b -> in_prev a = in_prev b. Proof. unfold in_core_eq. tauto. Qed.
+Lemma core_seq a b : in_core_eq a b -> in_seq a = in_seq b. Proof. unfold in_core_eq. tauto. Qed.
+Lemma core_iss a b : in_core_eq a b -> in_iss a = in_iss b. Proof. unfold in_core_eq. tauto. Qed.
+Lemma core_iss_or_zero a b : in_core_eq a b -> issuance_or_zero pt_ok a = issuance_or_zero pt_ok b.
+Proof. intros E. unfold issuance_or_zero, issuance_null. now rewrite (core_iss _ _ E). Qed.
+
+Theorem segwit_core t t' idx sc v ht : tx_core_eq t t' -> spec_segwit_msg pt_ok H t idx sc v ht = spec_segwit_msg pt_ok H t' idx sc v ht.
+Proof. intros (V & L & I & O). unfold spec_segwit_msg, hash_prevouts, hash_sequence, hash_issuance, hash_outputs.
+  pose proof (F2_nth _ _ _ I idx) as Nth. pose proof (F2_nth _ _ _ O idx) as No. rewrite V, L.
+  rewrite (F2_map _ (fun i => ser_outpoint (in_prev i)) (fun a b E => f_equal ser_outpoint (core_prev a b E)) _ _ I).
+  rewrite (F2_map _ (fun i => ser_u32 (in_seq i)) (fun a b E => f_equal ser_u32 (core_seq a b E)) _ _ I).
+  rewrite (F2_map _ _ core_iss_or_zero _ _ I).
+  rewrite (F2_map _ _ ser_txout_core _ _ O).
+  destruct (nth_error (tx_in t) idx) as [a|], (nth_error (tx_in t') idx) as [b|]; try contradiction; [|reflexivity].
+  unfold issuance_null. rewrite (core_prev _ _ Nth), (core_seq _ _ Nth), (core_iss _ _ Nth).
+  destruct (nth_error (tx_out t) idx) as [oa|], (nth_error (tx_out t') idx) as [ob|]; try contradiction; [|reflexivity].
+  now rewrite (ser_txout_core _ _ No). Qed.
+
+(* taproot: script_sig, script witness and pegin witness are outside the message (the issuance range proofs and the output
+   witnesses are inside) *)
+Lemma sig_flag a b : in_sig_eq a b -> outpoint_flag_byte a = outpoint_flag_byte b.
+Proof. unfold in_sig_eq, outpoint_flag_byte, issuance_null. intros (_ & -> & _ & -> & _). reflexivity. Qed.
+Lemma sig_proofs a b : in_sig_eq a b -> issuance_proofs a = issuance_proofs b.
+Proof. unfold in_sig_eq, issuance_proofs. intros (_ & _ & _ & _ & -> & ->). reflexivity. Qed.
+Theorem taproot_sig t t' spent idx annex leaf ht g : tx_sig_eq t t' ->
+  spec_taproot_msg pt_ok H t spent idx annex leaf ht g = spec_taproot_msg pt_ok H t' spent idx annex leaf ht g.
+Proof. intros (V & L & I & O). unfold spec_taproot_msg, sha_outpoint_flags, sha_prevouts, sha_sequences, sha_issuances, sha_issuance_rangeproofs,
+    sha_outputs, sha_output_witnesses.
+  pose proof (F2_nth _ _ _ I idx) as Nth. rewrite <- (Forall2_length _ _ _ I), V, L, O.
+  pose proof (fun a b (E : in_sig_eq a b) => in_sig_core a b E) as C.
+  rewrite (F2_map _ (fun i => n2b (outpoint_flag_byte i)) (fun a b E => f_equal n2b (sig_flag a b E)) _ _ I).
+  rewrite (F2_map _ (fun i => ser_outpoint (in_prev i)) (fun a b E => f_equal ser_outpoint (core_prev a b (C a b E))) _ _ I).
+  rewrite (F2_map _ (fun i => ser_u32 (in_seq i)) (fun a b E => f_equal ser_u32 (core_seq a b (C a b E))) _ _ I).
+  rewrite (F2_map _ _ (fun a b E => core_iss_or_zero a b (C a b E)) _ _ I).
+  rewrite (F2_map _ _ sig_proofs _ _ I).
+  destruct (nth_error (tx_in t) idx) as [a|], (nth_error (tx_in t') idx) as [b|]; try contradiction; [|reflexivity].
+  unfold issuance_null. rewrite (sig_flag _ _ Nth), (sig_proofs _ _ Nth), (core_prev _ _ (C _ _ Nth)), (core_seq _ _ (C _ _ Nth)), (core_iss _ _ (C _ _ Nth)).
+  reflexivity. Qed.
+End IRRELEVANT.
+
+Section IRRELEVANT2.
+Variable pt_ok : bytes -> bool.
+Variable H : bytes -> bytes.
+Variable flags : bool.
+
+Lemma none_not_single ht : hash_none ht = true -> hash_single ht = false.
+Proof. unfold hash_none, hash_single. intros E. apply N.eqb_eq in E. rewrite E. reflexivity. Qed.
+
+(* ---- SIGHASH_NONE: the outputs are outside the message ---- *)
+Theorem legacy_none t t' idx sc ht : hash_none ht = true -> tx_eq_but_outputs t t' ->
+  spec_legacy_msg pt_ok flags t idx sc ht = spec_legacy_msg pt_ok flags t' idx sc ht.
+Proof. intros N (V & L & I). unfold spec_legacy_msg, legacy_single_bug. rewrite (none_not_single _ N), N, V, L, I. reflexivity. Qed.
+Theorem segwit_none t t' idx sc v ht : hash_none ht = true -> tx_eq_but_outputs t t' ->
+  spec_segwit_msg pt_ok H t idx sc v ht = spec_segwit_msg pt_ok H t' idx sc v ht.
+Proof. intros N (V & L & I). unfold spec_segwit_msg, hash_prevouts, hash_sequence, hash_issuance. rewrite (none_not_single _ N), N, V, L, I. reflexivity. Qed.
+Theorem taproot_none t t' spent idx annex leaf ht g : tap_output_type ht = SIGHASH_NONE -> tx_eq_but_outputs t t' ->
+  spec_taproot_msg pt_ok H t spent idx annex leaf ht g = spec_taproot_msg pt_ok H t' spent idx annex leaf ht g.
+Proof. intros N (V & L & I). unfold spec_taproot_msg, sha_outpoint_flags, sha_prevouts, sha_sequences, sha_issuances, sha_issuance_rangeproofs.
+  rewrite N, V, L, I. reflexivity. Qed.
+
+(* ---- ANYONECANPAY: the other inputs, their number and their spent outputs are outside the message ---- *)
+Theorem legacy_acp t t' idx sc ht : anyone_can_pay ht = true -> tx_eq_at_input idx t t' ->
+  spec_legacy_msg pt_ok flags t idx sc ht = spec_legacy_msg pt_ok flags t' idx sc ht.
+Proof. intros A (V & L & O & I). unfold spec_legacy_msg, legacy_single_bug. rewrite A, V, L, O, I. reflexivity. Qed.
+Theorem segwit_acp t t' idx sc v ht : anyone_can_pay ht = true -> tx_eq_at_input idx t t' ->
+  spec_segwit_msg pt_ok H t idx sc v ht = spec_segwit_msg pt_ok H t' idx sc v ht.
+Proof. intros A (V & L & O & I). unfold spec_segwit_msg, hash_outputs. rewrite A, V, L, O, I. reflexivity. Qed.
+Theorem taproot_acp t t' spent spent' idx annex leaf ht g : tap_input_acp ht = true -> tx_eq_at_input idx t t' ->
+  length spent = length (tx_in t) -> length spent' = length (tx_in t') -> nth_error spent idx = nth_error spent' idx ->
+  spec_taproot_msg pt_ok H t spent idx annex leaf ht g = spec_taproot_msg pt_ok H t' spent' idx annex leaf ht g.
+Proof. intros A (V & L & O & I) L1 L2 S. unfold spec_taproot_msg, sha_outputs, sha_output_witnesses.
+  rewrite A, V, L, O, I, S, L1, L2, !Nat.eqb_refl. reflexivity. Qed.
+
+(* ---- SIGHASH_SINGLE: the other outputs (and how many follow) are outside the message ---- *)
+Lemma single_outputs ht : hash_single ht = true -> forall idx outs n o, nth_error outs idx = Some o ->
+  concat (mapi_from n (legacy_output pt_ok ht (n + idx)) (firstn (idx + 1) outs)) = concat (repeat (ser_txout pt_ok null_txout) idx) ++ ser_txout pt_ok o.
+Proof. intros S. induction idx as [|k IH]; intros [|x r] n o E; try discriminate; cbn [nth_error] in E.
+  - inversion E; subst. cbn. unfold legacy_output. rewrite Nat.add_0_r, Nat.eqb_refl, S. cbn. now rewrite app_nil_r.
+  - cbn [Nat.add firstn mapi_from concat repeat]. unfold legacy_output at 1. rewrite S.
+    replace (Nat.eqb n (n + Datatypes.S k)) with false by (symmetry; apply Nat.eqb_neq; lia). cbn [andb negb].
+    replace (n + Datatypes.S k)%nat with (Datatypes.S n + k)%nat by lia. rewrite (IH r (Datatypes.S n) o E). now rewrite <- app_assoc. Qed.
+Theorem legacy_single t t' idx sc ht : hash_single ht = true -> tx_eq_at_output idx t t' ->
+  spec_legacy_msg pt_ok flags t idx sc ht = spec_legacy_msg pt_ok flags t' idx sc ht.
+Proof. intros S (V & L & I & O). unfold spec_legacy_msg, legacy_single_bug, mapi. rewrite S, V, L, I. cbn [andb].
+  destruct (nth_error (tx_in t') idx); [|reflexivity].
+  destruct (nth_error (tx_out t) idx) as [o|] eqn:E1; symmetry in O.
+  - assert (L1 : Nat.leb (length (tx_out t)) idx = false) by (apply Nat.leb_gt, nth_error_Some; congruence).
+    assert (L2 : Nat.leb (length (tx_out t')) idx = false) by (apply Nat.leb_gt, nth_error_Some; congruence).
+    rewrite L1, L2. pose proof (single_outputs ht S idx (tx_out t) 0 o E1) as X1. pose proof (single_outputs ht S idx (tx_out t') 0 o O) as X2.
+    cbn [Nat.add] in X1, X2. rewrite X1, X2. destruct (hash_none ht); reflexivity.
+  - apply nth_error_None in E1. apply nth_error_None in O. apply Nat.leb_le in E1. apply Nat.leb_le in O. now rewrite E1, O. Qed.
+Theorem segwit_single t t' idx sc v ht : hash_single ht = true -> tx_eq_at_output idx t t' ->
+  spec_segwit_msg pt_ok H t idx sc v ht = spec_segwit_msg pt_ok H t' idx sc v ht.
+Proof. intros S (V & L & I & O). unfold spec_segwit_msg, hash_prevouts, hash_sequence, hash_issuance. rewrite S, V, L, I, O. reflexivity. Qed.
+Theorem taproot_single t t' spent idx annex leaf ht g : tap_output_type ht = SIGHASH_SINGLE -> tx_eq_at_output idx t t' ->
+  spec_taproot_msg pt_ok H t spent idx annex leaf ht g = spec_taproot_msg pt_ok H t' spent idx annex leaf ht g.
+Proof. intros S (V & L & I & O). unfold spec_taproot_msg, sha_outpoint_flags, sha_prevouts, sha_sequences, sha_issuances, sha_issuance_rangeproofs.
+  rewrite S, V, L, I, O. reflexivity. Qed.
+
+(* ---- SIGHASH_NONE / SIGHASH_SINGLE (legacy, segwit v0): the sequence numbers of the other inputs are outside the message ---- *)
+Lemma map_mapi_from {A B C} (g : B -> C) (h : nat -> A -> B) l : forall n, map g (mapi_from n h l) = mapi_from n (fun k a => g (h k a)) l.
+Proof. induction l; intros; cbn; [reflexivity|]. now rewrite IHl. Qed.
+Lemma mapi_from_const {A B} (g : A -> B) l : forall n, mapi_from n (fun _ a => g a) l = map g l.
+Proof. induction l; intros; cbn; [reflexivity|]. now rewrite IHl. Qed.
+Lemma mapi_from_ext {A B} (f g : nat -> A -> B) : (forall n a, f n a = g n a) -> forall l n, mapi_from n f l = mapi_from n g l.
+Proof. intros E. induction l; intros; cbn; [reflexivity|]. now rewrite E, IHl. Qed.
+Lemma mapi_mapi_from {A B C} (f : nat -> B -> C) (h : nat -> A -> B) l : forall n, mapi_from n f (mapi_from n h l) = mapi_from n (fun k a => f k (h k a)) l.
+Proof. induction l; intros; cbn; [reflexivity|]. now rewrite IHl. Qed.
+Lemma mapi_from_length {A B} (f : nat -> A -> B) l : forall n, length (mapi_from n f l) = length l.
+Proof. induction l; intros; cbn; auto. Qed.
+Lemma nth_mapi_from {A B} (f : nat -> A -> B) l : forall n k, nth_error (mapi_from n f l) k = option_map (f (n + k)%nat) (nth_error l k).
+Proof. induction l; intros n [|k]; cbn; try reflexivity. { now rewrite Nat.add_0_r. } rewrite IHl. now replace (S n + k)%nat with (n + S k)%nat by lia. Qed.
+Lemma erase_map {B} (g : txin -> B) idx l : (forall i q, g (set_seq i q) = g i) -> map g (erase_other_sequences idx l) = map g l.
+Proof. intros E. unfold erase_other_sequences, mapi. rewrite map_mapi_from. rewrite <- (mapi_from_const g l 0). apply mapi_from_ext.
+  intros n a. destruct (Nat.eqb n idx); auto. Qed.
+Lemma erase_nth idx l : nth_error (erase_other_sequences idx l) idx = nth_error l idx.
+Proof. unfold erase_other_sequences, mapi. rewrite nth_mapi_from. cbn [Nat.add]. rewrite Nat.eqb_refl. now destruct (nth_error l idx). Qed.
+Lemma erase_length idx l : length (erase_other_sequences idx l) = length l.
+Proof. apply mapi_from_length. Qed.
+Lemma erase_legacy_inputs ht idx sc l : (hash_single ht || hash_none ht) = true ->
+  mapi (legacy_input pt_ok flags ht idx sc) (erase_other_sequences idx l) = mapi (legacy_input pt_ok flags ht idx sc) l.
+Proof. intros Z. unfold erase_other_sequences, mapi. rewrite mapi_mapi_from. apply mapi_from_ext. intros n a.
+  destruct (Nat.eqb n idx) eqn:E; [reflexivity|]. unfold legacy_input. rewrite E, Z. reflexivity. Qed.
+
+Theorem legacy_other_sequences t t' idx sc ht : (hash_single ht || hash_none ht) = true -> tx_eq_but_other_sequences idx t t' ->
+  spec_legacy_msg pt_ok flags t idx sc ht = spec_legacy_msg pt_ok flags t' idx sc ht.
+Proof. intros Z (V & L & O & I). unfold spec_legacy_msg, legacy_single_bug.
+  rewrite <- (erase_nth idx (tx_in t)), <- (erase_nth idx (tx_in t')), <- (erase_length idx (tx_in t)), <- (erase_length idx (tx_in t')).
+  rewrite <- (erase_legacy_inputs ht idx sc (tx_in t) Z), <- (erase_legacy_inputs ht idx sc (tx_in t') Z). rewrite V, L, O, I. reflexivity. Qed.
+Theorem segwit_other_sequences t t' idx sc v ht : (hash_single ht || hash_none ht) = true -> tx_eq_but_other_sequences idx t t' ->
+  spec_segwit_msg pt_ok H t idx sc v ht = spec_segwit_msg pt_ok H t' idx sc v ht.
+Proof. intros Z (V & L & O & I). unfold spec_segwit_msg, hash_prevouts, hash_issuance, hash_outputs.
+  assert (Z' : negb (anyone_can_pay ht) && negb (hash_single ht) && negb (hash_none ht) = false)
+    by (destruct (anyone_can_pay ht), (hash_single ht), (hash_none ht); cbn in *; congruence).
+  rewrite Z'. rewrite <- (erase_nth idx (tx_in t)), <- (erase_nth idx (tx_in t')).
+  rewrite <- (erase_map (fun i => ser_outpoint (in_prev i)) idx (tx_in t)), <- (erase_map (fun i => ser_outpoint (in_prev i)) idx (tx_in t')) by reflexivity.
+  rewrite <- (erase_map (issuance_or_zero pt_ok) idx (tx_in t)), <- (erase_map (issuance_or_zero pt_ok) idx (tx_in t')) by reflexivity.
+  rewrite V, L, O, I. reflexivity. Qed.
+End IRRELEVANT2.
